@@ -32,6 +32,7 @@ var (
 	repoDir = flag.String("repo", "/repo", "repository root")
 	hooks   = flag.Bool("hooks", true, "insert field access hooks")
 	mapIter = flag.Bool("mapiter", true, "route map ranges through vrt.MapIter")
+	loops   = flag.Bool("loops", true, "insert vrt.Loop() at the head of every for body")
 )
 
 type entry struct {
@@ -40,7 +41,7 @@ type entry struct {
 }
 
 type stats struct {
-	GoStmts, Sends, Recvs, Closes, Selects, FieldHooks, FieldSkipped, MapRanges, Cancels int
+	GoStmts, Sends, Recvs, Closes, Selects, FieldHooks, FieldSkipped, MapRanges, Cancels, Loops int
 }
 
 func fail(pos token.Position, msg string) {
@@ -200,6 +201,12 @@ func (r *rewriter) rewrite() bool {
 		case *ast.RangeStmt:
 			if isChan(r.typeOf(n.X)) {
 				fail(r.fset.Position(n.Pos()), "range over channel not supported")
+			}
+		case *ast.ForStmt:
+			if *loops {
+				n.Body.List = append([]ast.Stmt{&ast.ExprStmt{X: r.call("Loop")}}, n.Body.List...)
+				r.st.Loops++
+				changed = true
 			}
 		}
 		return true
